@@ -509,4 +509,88 @@ theorem endBlock_inv (env : Env) (kind : BlockKind) (s : Col α) (hi : Inv env s
         · intro st hst; cases hst
       · exact hplain d p
 
+/-! ### every event -/
+
+theorem processEvent_inv (env : Env) (input : Str) (ev : Ev α) (s : Col α) (hi : Inv env s) (hev : EvOK ev) :
+    Inv env (processEvent env input ev s).2 := by
+  cases ev with
+  | frontMatter t =>
+    simp only [processEvent, A_modify]
+    refine Inv.congr (s := s) ?_ hi; exact ⟨rfl, rfl, rfl, rfl, rfl, rfl, rfl, rfl, rfl, Or.inl rfl⟩
+  | metadata k v =>
+    simp only [processEvent]
+    exact hi.congr ((metadataA_coreOnly env k v).out s)
+  | «section» name =>
+    simp only [processEvent, A_modify]
+    refine ⟨hi.locI, hi.locC, hi.itab, hi.ctab, hi.timers, ?_, ⟨Numbered.nil, fun ct h => by cases h⟩, rfl, hi.blk⟩
+    intro sec hsec
+    dsimp only at hsec
+    split at hsec
+    · simp only [List.mem_append, List.mem_singleton] at hsec
+      rcases hsec with h | h
+      · exact hi.secs sec h
+      · rename_i hne
+        rw [h]
+        exact ⟨by simpa using hne, hi.cur.1, hi.cur.2⟩
+    · exact hi.secs sec hsec
+  | start kind =>
+    simp only [processEvent, A_modify]
+    refine hi.grow rfl rfl rfl (Nat.le_refl _) (Nat.le_refl _) (Nat.le_refl _) (Nat.le_refl _) hi.locI hi.locC
+      hi.itab hi.ctab hi.timers ?_
+    intro items hb it hit
+    dsimp only at hb
+    split at hb
+    · cases hb
+    · cases kind <;> simp only [Option.some.injEq, BlockBuf.step.injEq, reduceCtorEq] at hb
+      subst hb; cases hit
+  | stop kind => simp only [processEvent]; exact endBlock_inv env kind s hi
+  | text t => simp only [processEvent]; exact inStepText_inv env t s hi
+  | ingredient i => simp only [processEvent]; exact inBlockComponent_inv env input _ s hi hev
+  | cookware c => simp only [processEvent]; exact inBlockComponent_inv env input _ s hi hev
+  | timer t => simp only [processEvent]; exact inBlockComponent_inv env input _ s hi hev
+  | error d => simp only [processEvent]; exact hi
+  | warning d =>
+    simp only [processEvent, A_modify]
+    refine Inv.congr (s := s) ?_ hi; exact ⟨rfl, rfl, rfl, rfl, rfl, rfl, rfl, rfl, rfl, Or.inl rfl⟩
+
+/-- what holds of the collector returned at the end of the event list -/
+structure FinalInv (env : Env) (c : Col α) : Prop where
+  itab : IngrTable env c.ingredients
+  ctab : CwTable env c.cookware
+  timers : ∀ t ∈ c.timers.toList, t.name.isSome = true ∨ t.quantity.isSome = true
+  secs : ∀ sec ∈ c.sections, ¬ sec.isEmpty = true ∧ Numbered sec.content ∧
+    ∀ ct ∈ sec.content, ContentOK c.ingredients.size c.cookware.size c.timers.size c.inlineQ.size ct
+
+theorem parseEventsLoop_inv (env : Env) (input : Str) (evs : List (Ev α)) (s c : Col α) (hi : Inv env s)
+    (hev : ∀ ev ∈ evs, EvOK ev) (hc : (parseEventsLoop env input evs s).output = some c) : FinalInv env c := by
+  induction evs generalizing s with
+  | nil =>
+    simp only [parseEventsLoop, Option.some.injEq] at hc
+    subst hc
+    refine ⟨?_, ?_, ?_, ?_⟩
+    · split <;> split <;> exact hi.itab
+    · split <;> split <;> exact hi.ctab
+    · split <;> split <;> exact hi.timers
+    · have key : ∀ sec ∈ (if (!s.cur.isEmpty) = true then s.sections ++ [s.cur] else s.sections),
+          ¬ sec.isEmpty = true ∧ Numbered sec.content ∧
+          ∀ ct ∈ sec.content, ContentOK s.ingredients.size s.cookware.size s.timers.size s.inlineQ.size ct := by
+        intro sec hsec
+        split at hsec
+        · simp only [List.mem_append, List.mem_singleton] at hsec
+          rcases hsec with h | h
+          · exact hi.secs sec h
+          · rename_i hne
+            rw [h]
+            exact ⟨by simpa using hne, hi.cur.1, hi.cur.2⟩
+        · exact hi.secs sec hsec
+      split <;> split <;> rename_i h1 h2 <;> simp only [h1, if_true, if_false] at key <;> exact key
+  | cons ev rest ih =>
+    by_cases he : ∃ d0, ev = .error d0
+    · obtain ⟨d0, rfl⟩ := he
+      simp only [parseEventsLoop] at hc
+      cases hc
+    · rw [parseEventsLoop_cons_nonerror env input ev rest s he] at hc
+      exact ih _ (processEvent_inv env input ev s hi (hev ev List.mem_cons_self))
+        (fun e he' => hev e (List.mem_cons_of_mem _ he')) hc
+
 end Cook
